@@ -1,15 +1,15 @@
 #!/bin/bash
 # confirm a seeded change in its scratch worktree: usage confirm_seed.sh <worktree> <demo test filter>
 # 1. patch only: full dnp3 suite passes; 2. patch + demo: demo fails; 3. demo only: demo passes
-W=$1; F=$2
+W=$1; F=$2; PKG=${3:-dnp3}
 cd $W || exit 2
 export CARGO_TARGET_DIR=$W/target CARGO_NET_OFFLINE=true
 git checkout -q -- . ; git clean -fdq -e out -e PROPERTY.txt -e target
 git apply out/patch.diff || { echo "PATCH-APPLY-FAILED"; exit 2; }
 cargo test -p dnp3 --offline --lib 2>&1 | grep -E "^test result|FAILED|failed" | head -5 > out/confirm_suite.txt
 git apply out/demo.diff || { echo "DEMO-APPLY-FAILED"; exit 2; }
-cargo test -p dnp3 --offline --lib $F 2>&1 | grep -E "^test result|FAILED|failed|panicked" | head -8 > out/confirm_demo_with_patch.txt
+cargo test -p $PKG --offline --lib $F 2>&1 | grep -E "^test result|FAILED|failed|panicked" | head -8 > out/confirm_demo_with_patch.txt
 git apply -R out/patch.diff
-cargo test -p dnp3 --offline --lib $F 2>&1 | grep -E "^test result|FAILED|failed" | head -5 > out/confirm_demo_without_patch.txt
+cargo test -p $PKG --offline --lib $F 2>&1 | grep -E "^test result|FAILED|failed" | head -5 > out/confirm_demo_without_patch.txt
 git checkout -q -- . ; git clean -fdq -e out -e PROPERTY.txt -e target
 echo "== $W"; echo "suite with patch:"; cat out/confirm_suite.txt; echo "demo with patch:"; cat out/confirm_demo_with_patch.txt; echo "demo without patch:"; cat out/confirm_demo_without_patch.txt
